@@ -10,6 +10,7 @@ package forwarder
 //vf:assume C13-binding: the proxy is configured with a Prometheus registry; middleware.NewPrometheus and the two methods the hooks call ((*Prometheus).ReadRequest / WroteResponse) are replaced by a ledger (in-flight up / in-flight down + total), so the Prometheus client is outside (model-only harness); two exchanges of the kinds of vfH_C13_trace on one connection, optionally with the client socket failing for writes after k bytes (client abort while downloading)
 
 import (
+	"bufio"
 	"bytes"
 	"context"
 	"io"
@@ -25,13 +26,21 @@ import (
 
 var vfInFlight, vfCompleted, vfStarted int
 
+// the in-flight gauge is one series per request method (the middleware's labels): each must return to zero
+var vfInFlightBy map[string]int
+
 func vfStubNewPrometheus(r prometheus.Registerer, namespace string, opts ...middleware.PrometheusOpt) *middleware.Prometheus {
 	return &middleware.Prometheus{}
 }
-func vfStubPromRead(p *middleware.Prometheus, req *http.Request) { vfInFlight++; vfStarted++ }
+func vfStubPromRead(p *middleware.Prometheus, req *http.Request) {
+	vfInFlight++
+	vfStarted++
+	vfInFlightBy[req.Method]++
+}
 func vfStubPromWrote(p *middleware.Prometheus, res *http.Response) {
 	vfInFlight--
 	vfCompleted++
+	vfInFlightBy[res.Request.Method]-- // the real method labels the completion with the method of res.Request
 }
 
 //vf:override github.com/saucelabs/forwarder/middleware.NewPrometheus = vfStubNewPrometheus
@@ -40,7 +49,7 @@ func vfStubPromWrote(p *middleware.Prometheus, res *http.Response) {
 
 //vf:harness property=C13 nopanic modelonly reach=binding-two-exchanges,binding-write-failure,binding-tunnel steps=10000000
 func vfH_C13_binding() {
-	vfInFlight, vfCompleted, vfStarted = 0, 0, 0
+	vfInFlight, vfCompleted, vfStarted, vfInFlightBy = 0, 0, 0, map[string]int{}
 	cfg := HTTPProxyConfig{}
 	cfg.Name = "fw"
 	cfg.ProxyLocalhost = AllowProxyLocalhost
@@ -87,8 +96,55 @@ func vfH_C13_binding() {
 	martian.VfServeConn(hp.proxy, conn)
 	vfrt.Assert(vfStarted >= 1, "binding/first-request-counted")
 	vfrt.Assert(vfInFlight == 0, "binding/in-flight-gauge-returns-to-zero")
+	for _, m := range []string{"GET", "HEAD", "POST", "CONNECT"} {
+		vfrt.Assert(vfInFlightBy[m] == 0, "binding/in-flight-series-of-every-method-returns-to-zero")
+	}
 	vfrt.Assert(vfCompleted == vfStarted, "binding/request-counter-increases-by-one-per-request-read")
 	if two && vfStarted == 2 {
 		vfrt.Reach("binding-two-exchanges")
+	}
+}
+
+//vf:assume C13-connect-rejected-labels: a GET or HEAD for an https:// URL whose transport has to CONNECT through an upstream proxy that rejects the CONNECT (403/407/502, with or without a 6-byte body): http.Transport reports the rejection to the hook the proxy installs (martian.OnProxyConnectResponse) together with its own CONNECT request, as net/http does; the exchange is counted complete once, in the series of the method the client used, with the status the client was sent; ledger as in C13-binding (model-only)
+
+//vf:harness property=C13 nopanic modelonly reach=connect-rejected-get,connect-rejected-head steps=8000000
+func vfH_C13_connect_rejected_labels() {
+	vfInFlight, vfCompleted, vfStarted, vfInFlightBy = 0, 0, 0, map[string]int{}
+	cfg := HTTPProxyConfig{}
+	cfg.Name = "fw"
+	cfg.ProxyLocalhost = AllowProxyLocalhost
+	cfg.PromRegistry = (*prometheus.Registry)(nil)
+	hp := vfNewHTTPProxy(cfg)
+	rt := hp.transport.(*vfRoundTripper)
+	status := []int{403, 407, 502}[vfrt.Choice("upstream-status", 3)]
+	withBody := vfrt.Choice("upstream-body", 2) == 1
+	rt.respond = func(req *http.Request, n int) (*http.Response, error) {
+		// what http.Transport does when the proxy answers its CONNECT: the hook gets the transport's own request
+		connectReq := &http.Request{Method: "CONNECT", URL: &url.URL{Opaque: "example.com:443"}, Host: "example.com:443", Header: http.Header{}}
+		up := &http.Response{StatusCode: status, Status: http.StatusText(status), ProtoMajor: 1, ProtoMinor: 1, Header: http.Header{"X-Upstream": {"1"}}, Body: http.NoBody, Request: connectReq}
+		if withBody {
+			up.ContentLength, up.Body = 6, io.NopCloser(bytes.NewReader([]byte("DENIED")))
+		}
+		u, _ := url.Parse("http://proxy.internal:3128")
+		return nil, martian.OnProxyConnectResponse(req.Context(), u, connectReq, up)
+	}
+	method := []string{"GET", "HEAD"}[vfrt.Choice("method", 2)]
+	if method == "GET" {
+		vfrt.Reach("connect-rejected-get")
+	} else {
+		vfrt.Reach("connect-rejected-head")
+	}
+	conn := martian.NewVfConn([]byte(method + " https://example.com/a HTTP/1.1\r\nHost: example.com\r\n\r\n"))
+	martian.VfServeConn(hp.proxy, conn)
+	vfrt.Assert(vfStarted == 1 && vfCompleted == 1, "connect-rejected-labels/counted-complete-once")
+	for _, m := range []string{"GET", "HEAD", "POST", "CONNECT"} {
+		vfrt.Assert(vfInFlightBy[m] == 0, "connect-rejected-labels/in-flight-series-of-every-method-returns-to-zero")
+	}
+	// and the reply is framed for the request the client sent (a HEAD gets no body)
+	res, err := http.ReadResponse(bufio.NewReader(bytes.NewReader(conn.Out.Bytes())), &http.Request{Method: method})
+	vfrt.Assert(err == nil && res.StatusCode == status, "connect-rejected-labels/client-is-sent-the-upstream-status")
+	if err == nil {
+		b, berr := io.ReadAll(res.Body)
+		vfrt.Assert(berr == nil && (method == "HEAD" && len(b) == 0 || method == "GET" && withBody == (len(b) == 6)), "connect-rejected-labels/reply-framed-for-the-client's-request")
 	}
 }
